@@ -88,6 +88,10 @@ def _get_active_realizations(
     constraint_weights: NDArray[np.float64] | None = None,
 ) -> tuple[NDArray[np.bool_] | None, NDArray[np.bool_] | None]:
     if objective_weights is None:
+        # Realization filters may assign a non-zero weight to any realization,
+        # and rank them by their function values. Hence, all are needed:
+        if config.realization_filters:
+            return None, None
         active_realizations = np.abs(config.realizations.weights) > 0
         if np.all(active_realizations):
             return None, None
